@@ -217,3 +217,21 @@ Qed.
 Lemma roadm_profile_id0 : forall A (profiles : list (Z * Z * A)) global pt a,
   profile_by_id profiles 0%Z = Some a -> roadm_profile profiles global pt (Some 0%Z) = Ok a.
 Proof. intros A profiles global pt a H. unfold roadm_profile. rewrite H. reflexivity. Qed.
+
+(* conjunctions used by Props/C05.v *)
+Lemma gen_quadrature_updates : forall x y : R,
+  @g_fiber_pmd_update NumR x y = sqrt (x * x + y * y) /\ @g_ramanfiber_pmd_update NumR x y = sqrt (x * x + y * y) /\
+  @g_roadm_pmd_update NumR x y = sqrt (x * x + y * y) /\ @g_roadm_pdl_update NumR x y = sqrt (x * x + y * y).
+Proof. intros. repeat split; reflexivity. Qed.
+
+Lemma gen_iter_sweeps : forall (alpha : list R) (cr : list (list R)) (src : list R) (dz ll p g : R),
+  @step_col NumR alpha cr src dz ll =
+  map (fun t : R * (R * list R) => let '(p, (a, row)) := t in @g_iter_fwd NumR p (@g_iter_dpdz NumR a row src) dz ll)
+      (combine src (combine alpha cr)) /\
+  @g_iter_bwd NumR p g dz ll = @g_iter_fwd NumR p g dz ll.
+Proof. intros. split; reflexivity. Qed.
+
+Lemma gen_latency_and_positions : forall fib, ~ (f_n1 fib == 0)%Q ->
+  Q2R (fiber_latency fib) = @g_latency NumR (Q2R c_light) (Q2R (len_m fib)) (Q2R (f_n1 fib)) /\
+  map (fun zl => Q2R (fst zl)) (lumped_m fib) = map (fun zl => @g_lumped_pos_m NumR (Q2R (fst zl))) (f_lumped fib).
+Proof. intros fib H. split; [apply gen_latency; exact H|apply gen_lumped_pos_m]. Qed.
